@@ -42,7 +42,7 @@ SHAPES = {
     "q4_98_mus_seq_notated": ([4], [(9, 8)], "none", "custom_then_notated", None, "beat"),
 }
 QUICK = ["q1_44", "q2_34_quarter", "q23_68", "q4_68_24_mus", "q2_44_pickup", "q2_34_pickup_quarter",
-         "q12_68_pickup_mus", "q2_98_custom", "q32_32_58", "q2_38_quarter_musmode", "q2_68_mus_seq",
+         "q12_68_pickup_mus", "q2_98_custom", "q2_38_quarter_musmode", "q2_68_mus_seq",
          "q4_98_mus_seq_notated"]
 
 MUSICAL = {2: 2, 3: 3, 4: 4, 6: 2, 9: 3, 12: 4}
@@ -265,7 +265,7 @@ HARNESSES = [
         instances=_instances,
         models=["syminterp", "symdict", "symnp"],
         vectors=_vectors,
-        budget={"quick": 90.0, "thorough": 600.0},
+        budget={"quick": 150.0, "thorough": 900.0},
         functions=["Part._time_interpolator", "Part.beat_map", "Part.inv_beat_map", "Part.quarter_map",
                    "Part.inv_quarter_map", "Part.quarter_duration_map", "Part.use_musical_beat",
                    "Part.set_musical_beat_per_ts", "Part.set_quarter_duration", "generic.interp1d"],
